@@ -42,8 +42,8 @@ TRUSTED = [
     "the BTreeDict/BTreeSet of dns/btree.py is modelled as a strictly sorted association list with "
     "seek(before=False)/next/prev cursor positions (its correctness as a sorted map is property C19)",
     "rdata are abstract ids; dns.rdataset set algebra (union/difference keep first-insertion order) is "
-    "modelled on id lists (its correctness is property C07); CNAME-style node exclusions are not modelled "
-    "(generators use A/NS/TXT/AAAA/MX only)",
+    "modelled on id lists (its correctness is property C07); dns.node.NodeKind CNAME / other-data exclusion and singleton types are modelled"
+    " (types A/NS/TXT/AAAA/MX/CNAME/DNAME/NSEC/RRSIG(CNAME)/RRSIG(NS))",
 ]
 RULE = ("one case = one zone configuration (relativize, origin) and one history of transactions; distinct = "
         "distinct canonical history; non-trivial = the history ran without a harness-level error")
@@ -74,10 +74,21 @@ def exc_code(e):
 
 # ------------------------------------------------------------------ rdata ids <-> rdata
 
-RDTYPES = [1, 2, 16, 28, 15]
+SIG = 1000000                 # type id SIG + c = RRSIG covering c
+RDTYPES = [1, 2, 16, 28, 15, 5, 39, 47, SIG + 5, SIG + 2]
+SINGLETONS = (5, 39, 47)      # CNAME, DNAME, NSEC (dns.rdatatype.is_singleton)
 
 
-def rdata_of(rdtype, i):
+def split_type(t):
+    return (46, t - SIG) if t >= SIG else (t, 0)
+
+
+def type_id(rds):
+    return SIG + int(rds.covers) if int(rds.rdtype) == 46 else int(rds.rdtype)
+
+
+def rdata_of(t, i):
+    rdtype, covers = split_type(t)
     if rdtype == 1:
         text = f"10.0.{i // 256}.{i % 256}"
     elif rdtype == 2:
@@ -88,13 +99,19 @@ def rdata_of(rdtype, i):
         text = f"2001:db8::{i:x}"
     elif rdtype == 15:
         text = f"{i} mx.target.test."
+    elif rdtype in (5, 39):
+        text = f"c{i}.target.test."
+    elif rdtype == 47:
+        text = f"n{i}.test. A NS"
+    elif rdtype == 46:
+        text = f"{dns.rdatatype.to_text(covers)} 8 2 300 20300101000000 20200101000000 {i} signer.test. AAAA"
     else:
         raise ValueError(rdtype)
     return dns.rdata.from_text(dns.rdataclass.IN, rdtype, text)
 
 
 def id_of(rd):
-    t = rd.rdtype
+    t = int(rd.rdtype)
     if t == 1:
         a = [int(x) for x in rd.address.split(".")]
         return a[2] * 256 + a[3]
@@ -106,14 +123,21 @@ def id_of(rd):
         return int(rd.address.split(":")[-1], 16)
     if t == 15:
         return rd.preference
+    if t in (5, 39):
+        return int(rd.target.labels[0][1:])
+    if t == 47:
+        return int(rd.next.labels[0][1:])
+    if t == 46:
+        return rd.key_tag
     raise ValueError(t)
 
 
-def mk_rdataset(rdtype, ids):
-    rds = dns.rdataset.Rdataset(dns.rdataclass.IN, rdtype)
+def mk_rdataset(t, ids):
+    rdtype, covers = split_type(t)
+    rds = dns.rdataset.Rdataset(dns.rdataclass.IN, rdtype, covers)
     rds.update_ttl(300)
     for i in ids:
-        rds.add(rdata_of(rdtype, i), 300)
+        rds.add(rdata_of(t, i), 300)
     return rds
 
 
@@ -141,7 +165,7 @@ def dump_version(v):
         if v.nodes.get(name) is not node:
             raise HarnessCheck(E_GET, "nodes.get(name) is not the iterated node")
         nodes.append([labels_of(name), int(node.flags),
-                      [[int(r.rdtype), [id_of(x) for x in r]] for r in node.rdatasets]])
+                      [[type_id(r), [id_of(x) for x in r]] for r in node.rdatasets]])
     if len(v.nodes) != n:
         raise HarnessCheck(E_LEN, "len(nodes) != names iterated")
     delegs = [labels_of(k) for k in v.delegations]
@@ -211,7 +235,7 @@ def apply_op(txn, op):
     elif k == 3:
         txn.delete(name)
     elif k == 4:
-        txn.delete(name, dns.rdatatype.RdataType.make(op[2]))
+        txn.delete(name, *[dns.rdatatype.RdataType.make(x) for x in split_type(op[2])])
     elif k == 5:
         txn.delete(name, mk_rdataset(op[2], op[3]))
     else:
@@ -273,7 +297,7 @@ def zone_text(records):
     lines = []
     for name, rdtype, i in records:
         owner = dns.name.Name(name).to_text()
-        lines.append(f"{owner} 300 IN {dns.rdatatype.to_text(rdtype)} {rdata_of(rdtype, i).to_text()}")
+        lines.append(f"{owner} 300 IN {dns.rdatatype.to_text(split_type(rdtype)[0])} {rdata_of(rdtype, i).to_text()}")
     return "\n".join(lines) + "\n"
 
 
@@ -521,8 +545,10 @@ def gen_op(rng, rel, origin, alpha, names):
     elif r3 < 0.055:
         name = ls + origin[1:] if len(origin) > 1 else ls + [b"x", b""]   # a superdomain / sibling of the origin
     k = rng.choice([1, 1, 1, 1, 2, 2, 3, 4, 4, 5])
-    rdtype = NS if rng.random() < 0.45 else rng.choice([1, 1, 16, 28, 15])
+    rdtype = NS if rng.random() < 0.42 else rng.choice([1, 1, 16, 28, 15, 5, 5, 5, 47, SIG + 5, SIG + 2, 39])
     ids = sorted(rng.sample(range(1, 5), rng.choice([1, 1, 2])))
+    if rdtype in SINGLETONS:
+        ids = ids[:1]
     if k == 5 and rng.random() < 0.06:
         ids = []                            # an empty rdataset is falsy: delete(name, rdataset) deletes the name
     if k == 3:
@@ -669,12 +695,17 @@ def gen_deep(ctx, rng):
 
 
 def exhaustive_small(ctx):
+    yield from exhaustive_types(ctx, (NS, 1), "exhaustive")
+    yield from exhaustive_types(ctx, (NS, 5), "exhaustive-cname")
+
+
+def exhaustive_types(ctx, types, kind):
     """all sequences of k operations over a 4-name universe (apex, b, a.b, c.a.b) x {NS, A},
     each op in its own committed transaction (so every copy-on-write path is taken)"""
     uni = [[], [b"b"], [b"a", b"b"], [b"c", b"a", b"b"]]
     ops = []
     for n in uni:
-        for t in (NS, 1):
+        for t in types:
             ops.append([2, n, t, [1]])
             ops.append([4, n, t])
         ops.append([3, n])
@@ -686,8 +717,8 @@ def exhaustive_small(ctx):
         txns = [[1, 1, base, []]] + [[0, 1, [op], []] for op in seq]
         txns[-1][3] = qs
         cnt += 1
-        yield "exhaustive", [1, [b"example", b""], txns]
-    ctx.notes["exhaustive_sequences"] = cnt
+        yield kind, [1, [b"example", b""], txns]
+    ctx.notes[kind + "_sequences"] = cnt
 
 
 def cases(ctx):
